@@ -125,6 +125,7 @@ Additions for the randomised steps (scoring/rand.py, the hold-out splits, the DB
   cfg["int_truthiness"]      True: the truth value of a plain int (declared Z) is `negb (x =? 0)` (`if not n:`)
   cfg["assign_effects"]      a template starting with `!` denotes a `result state`: the assignment may raise (an IndexError of
                       `a[idx] = True`)
+  cfg["stmt_prims"]          a template starting with `!` denotes a `result T`: the statement run may raise
   cfg["outside_names"]       (with cfg["body_slice"]) the identifiers the statements OUTSIDE the translated run may mention (bare
                       names; attribute names with a leading dot).  Those statements are still not translated, but a name that is
                       not listed - the generator argument, `.random`, `default_rng`, a new helper, an import - is refused
@@ -319,6 +320,10 @@ class Tr:
                 if kw.arg is not None:
                     a, at = self.expr(kw.value, env, hoist)
                     args[kw.arg] = self.need(a, at, argtys[kw.arg], hoist) if kw.arg in argtys else a
+            if tmpl.startswith("!"):     # a statement run that may raise: the template denotes a `result T`
+                n = self.new("r")
+                hoist.append((n, tmpl[1:].format(**args)))
+                return n, ty
             return "(" + tmpl.format(**args) + ")", ty
         if isinstance(e, ast.Call) and isinstance(e.func, ast.Name) and e.func.id in self.kwcalls:
             return self.kwcall(e, env, hoist)
